@@ -45,7 +45,7 @@ def shards(tier, seed):
 
 
 def opts():
-    return gen.Opts(headers=True, custom_names=True, services=(1, 3), methods=(1, 4), namespaces=3)
+    return gen.Opts(headers=True, multi_headers=True, custom_names=True, services=(1, 3), methods=(1, 4), namespaces=3)
 
 
 def universe(seed, uid):
@@ -152,7 +152,7 @@ def check_closure(R, wsdl_bytes, ir, repro):
 
 
 def header_also_bare(ir, tname):
-    hdr = any(tname in (m.get('in_header'), m.get('out_header')) for s in ir['services'] for m in s['methods'])
+    hdr = any(tname in gen.header_names(m, 'in_header') + gen.header_names(m, 'out_header') for s in ir['services'] for m in s['methods'])
     bare = any(m['style'] == 'bare' and m['args'] and m['args'][0][1].get('ref') == tname for s in ir['services'] for m in s['methods']) or \
         any(m['style'] in ('bare', 'out_bare') and m['returns'] and m['returns'][0].get('ref') == tname for s in ir['services'] for m in s['methods'])
     return hdr and bare
@@ -258,7 +258,7 @@ def check_zeep(R, seed, uid, ir, tier, repro):
             Z = clients.ZeepInProc(wsdl, wsgi, soap12=(kind == 'soap12'))
         except Exception as e:
             R.violation('zeep cannot build a client from the WSDL: %s: %s' % (type(e).__name__, str(e)[:200]), dict(repro, kind=kind),
-                        mech='zeep_load_failed:%s' % zeep_load_kind(e, ir))
+                        mech='zeep_load_failed:%s' % zeep_load_kind(e, ir, wsdl))
             continue
         R.count('zeep_clients_built')
         S = W.schema
@@ -276,12 +276,21 @@ def check_zeep(R, seed, uid, ir, tier, repro):
                     one_zeep_call(R, B, W, S, Z, ir, md, args, rets, dict(repro, kind=kind, method=md['name'], call=k))
 
 
-def zeep_load_kind(e, ir=None):
+def zeep_load_kind(e, ir=None, wsdl=b''):
     import re
     s = str(e)
     m = re.search(r"No definition '\{[^}]*\}(\w+)' in 'messages'", s)
     if m and ir is not None and header_also_bare(ir, m.group(1)):
         return 'header_class_also_bare_message_loses_element'
+    if m and ir is not None and m.group(1).endswith('HeaderMsg') and ('<wsdl:message name="%s"' % m.group(1)).encode() in (wsdl or b''):
+        # the multi-part header message IS defined; zeep dropped it because one of its parts names an element that is not
+        # published - the same mechanism when that part's class is also a bare message
+        mname, which = (m.group(1)[:-len('InHeaderMsg')], 'in_header') if m.group(1).endswith('InHeaderMsg') else \
+            (m.group(1)[:-len('OutHeaderMsg')], 'out_header')
+        for sd in ir['services']:
+            for md in sd['methods']:
+                if (md.get('in_message_name') or md['name']) == mname and any(header_also_bare(ir, h) for h in gen.header_names(md, which)):
+                    return 'header_class_also_bare_message_loses_element'
     m2 = re.search(r"Unable to resolve type \{[^}]*\}(\w+)", s) if 'Unable to resolve type' in s else None
     if m2 and ir is not None and any('xmldata' in ft for t in ir['types'] for _, ft in t['fields']):
         return 'xmldata_type_not_published'
@@ -317,7 +326,7 @@ def one_zeep_call(R, B, W, S, Z, ir, md, args, rets, repro):
     try:
         op = getattr(Z.service, opname)
         if md.get('in_header'):
-            res = op(_soapheaders={md['in_header']: {}}, **kwargs)
+            res = op(_soapheaders={h: {} for h in gen.header_names(md, 'in_header')}, **kwargs)
         else:
             res = op(**kwargs)
     except zeep.exceptions.ValidationError as e:
